@@ -368,6 +368,20 @@ func genPackage(r *rand.Rand, idx int) job {
 	ng := &nameGen{r: r, used: map[string]bool{}}
 	g := &tyGen{r: r, used: map[string]bool{}, rare: rare}
 	var b strings.Builder
+	if exotic && r.Intn(10) == 0 {
+		// a package of constants only (plus unexported helpers)
+		fmt.Fprintf(&b, "package %s\n\nconst (\n", name)
+		for i := 1 + r.Intn(6); i > 0; i-- {
+			t, e := constExpr(r, "", "")
+			if t == "" {
+				fmt.Fprintf(&b, "\t%s = %s\n", ng.fresh("C", r.Intn(8) != 0), e)
+			} else {
+				fmt.Fprintf(&b, "\t%s %s = %s\n", ng.fresh("c", false), t, e)
+			}
+		}
+		b.WriteString(")\n\nfunc helper() {}\n\nvar state int\n")
+		return job{Mode: "module", Dir: dir, ImportPath: "gen.test/" + dir, Files: map[string]string{"p.go": b.String()}, Dest: "lib"}
+	}
 
 	// named types first (so that later declarations can mention them)
 	nTypes := r.Intn(6)
